@@ -43,7 +43,9 @@ CHECKS = {
              'are abstracted by the partition lemma proved for all rates/cadences in the same run (C04), so the claim is rate-independent. '
              '(R1/R2) CrossHair confirms over all paths that the real _read / _combine_blocks return Blocks(Sem(index)) and the maximal merge. '
              '(X) one solver witness per path shape of the regular-window twins is run on the real build: C writer -> files -> real reader == '
-             'reference model. Bounds: <=3 blocks, <=3 files per call, <=3 index rows per file on the reader side.',
+             'reference model. (E) the Python extension (python/lib/py_rf_write_hdf5.c) is executed from its own IR with symbolic numpy arrays: it hands '
+             'the library exactly the caller\'s blocks (data pointer = base + block offset x row stride, next sample, length, order). '
+             'Bounds: <=3 blocks, <=3 files per call, <=3 index rows per file on the reader side.',
         note='Trusted: z3, CrossHair, vlib/llsym.py IR semantics, environment stubs (fresh channel, no faults), HDF5 storing what H5Dwrite is '
              'given. N1 (reader candidate file list vs writer naming) is decided in checks/readerside.py.',
         technique='symbolic execution of LLVM IR to SMT (z3) with compositional summaries + CrossHair on the real Python reader',
@@ -63,7 +65,8 @@ CHECKS = {
         text='On every path of the write-path histories (see C01) the solver shows each created file has a well-formed index (>=1 row, offset 0, '
              'strictly increasing, d(offset)<=d(sample), last offset inside the stored rows, all samples inside the file window, rows <= window '
              'capacity), exactly the 19 documented attributes with the writer\'s parameters, and sequence numbers 0,1,2.. in file-time order; W0 '
-             'shows the rows handed to HDF5 are well formed for all arguments; digital_rf_handle_metadata (create) writes exactly the 15 '
+             'shows the rows handed to HDF5 are well formed for all arguments; the constructor stores the session start timestamp == floor(start*d/n) '
+             '(per rate, with its 80-bit floating point divisions - if any - modelled exactly); digital_rf_handle_metadata (create) writes exactly the 15 '
              'channel attributes. CrossHair confirms over all paths (16 directory-state cases) that the real recreate_properties_file never '
              'overwrites an existing properties file and otherwise writes exactly those 15 attributes with the values of a finalized data file '
              'opened read-only. Witness histories are run on the real build and every file\'s index compared semantically; the properties file '
@@ -138,7 +141,8 @@ CHECKS = {
              'its two datasets and the file were closed, is never named by a later event, and that after close no tmp file of this writer is '
              'left; in a later session on a directory where any finalized file and any stale tmp. file may already exist, only files this '
              'writer created and closed are ever renamed to a final name. The channel properties file is shown to be staged (tmp + rename after close). z3 regex emptiness shows no reader / lister / '
-             'watcher grammar accepts a tmp. name. A real recording under strace validates the event model (creates, closes, renames).',
+             'watcher grammar accepts a tmp. name. Real recordings under strace validate the event model (exclusive creates, closes before renames) and '
+             'serve as the replay of protocol-order counterexamples.',
         note='Trusted: z3, IR executor, stubs; HDF5 writes only to the file it was asked to create and the file is complete after H5Fclose; '
              'rename is atomic. Content of finalized files: C01/C06.',
         technique='symbolic execution of LLVM IR to SMT (z3) over event-trace prefixes + z3 regex emptiness + strace validation of the stubs',
